@@ -869,6 +869,9 @@ func TestC04(t *testing.T) {
 	core.DFS(r, core.Check[qprog]{Name: "all-schedules", Gen: genFixedProgram, Exec: execProgram("C04"), Bounded: true}, r.N(40000, 2000000))
 	core.DFS(r, core.Check[qprog]{Name: "all-schedules-element-types", Gen: genElemProgram, Exec: execProgram("C04"), Bounded: true}, r.N(4000, 200000))
 	core.Rapid(r, core.Check[qprog]{Name: "sampled-schedules", Gen: genRandomProgram, Exec: execProgram("C04")}, r.N(2500, 50000))
+	core.DFS(r, core.Check[queueFromCase]{Name: "queue-from-collection", Gen: func(s core.Source) queueFromCase {
+		return queueFromCase{From: core.Pick(s, []string{"Array", "List", "Set", "Stack", "Queue"}, "from"), N: []int{0, 1, 2, 3, 5, 16, 17, 40}[s.Choose(8, "n")]}
+	}, Exec: execQueueFrom}, 0)
 	familySweep(r, "C04")
 }
 
@@ -895,6 +898,17 @@ func TestC17Sched(t *testing.T) {
 		return
 	}
 	core.DFS(r, core.Check[qprog]{Name: "queue-iterator-schedules", Gen: func(s core.Source) qprog { return iteratorPrograms[s.Choose(len(iteratorPrograms), "program")] }, Exec: exec, Bounded: true}, r.N(20000, 400000))
+}
+
+func TestC13Sched(t *testing.T) {
+	r := core.Begin(t, "C13")
+	defer r.End()
+	core.Rapid(r, core.Check[stackFromQueueCase]{Name: "stack-from-busy-queue", Gen: func(s core.Source) stackFromQueueCase {
+		c := stackFromQueueCase{Cap: uint([]int{1, 2, 15, 16, 17}[s.Choose(5, "cap")])}
+		c.Values = int(c.Cap) - 1 + s.Choose(4, "values")
+		c.Delay = max(0, c.Values-s.Choose(3, "delay"))
+		return c
+	}, Exec: execStackFromQueue}, r.N(600, 6000))
 }
 
 func TestC05(t *testing.T) {
